@@ -604,34 +604,8 @@ func c07Run(c c07Case, r *hx.Rec) error {
 	return check("InTotoVerify (certificate-signed link)", !out.Rejected(), out.Err)
 }
 
-// c07TrustStore makes the process's platform trust store (read once, on first use, from SSL_CERT_FILE)
-// hold the generated root CA "r0": a verifier that ever falls back to the system roots would then
-// accept chains the layout does not authorise. The library never consults the system roots when it
-// works as stated, so this changes nothing on a correct tree.
-func c07TrustStore() error {
-	certs, err := hx.BuildPKI(hx.PKISpec{Certs: []hx.PKICert{{Name: "r0", IsCA: true, Validity: "valid", KeyKind: "p256"}}})
-	if err != nil {
-		return err
-	}
-	dir, err := os.MkdirTemp("", "c07-trust-")
-	if err != nil {
-		return err
-	}
-	if err := os.MkdirAll(dir+"/empty", 0o755); err != nil {
-		return err
-	}
-	if err := os.WriteFile(dir+"/roots.pem", []byte(certs["r0"].PEM), 0o644); err != nil {
-		return err
-	}
-	_ = os.Setenv("SSL_CERT_FILE", dir+"/roots.pem")
-	return os.Setenv("SSL_CERT_DIR", dir+"/empty")
-}
-
 func TestC07(t *testing.T) {
 	begin(t, "C07")
-	if err := c07TrustStore(); err != nil {
-		hx.HarnessError("trust store: %v", err)
-	}
 	hx.Assume("the process's platform trust store (SSL_CERT_FILE) holds the generated root CA r0, as a machine's store may hold a CA that the layout does not list")
 	hx.Assume("ground truth by construction: the PKI is generated from a specification (issuer, CA flag, validity with >=2h margins, placement of every certificate), attribute verdict = wildcard | empty-and-absent | set-equal without duplicates")
 	hx.Assume("must-accept is asserted only under a wildcard root constraint and without repeated certificate values (the statement settles nothing else); must-reject always")
